@@ -272,10 +272,19 @@ def _compare(ctx, p, rng):
                 s = float(np.median(a[0])) if a[0].size else 0.0
                 _t(ctx, lambda: op(X, s)); _t(ctx, lambda: op(s, X))
                 _t(ctx, lambda: op(X, b[0, 0])); _t(ctx, lambda: op(X, np.float64(s)))
+    # clipping with the lower bound above the upper one (per element, after broadcasting): NumPy returns the upper bound
+    for shape in [(3,), (2, 2)]:
+        a = gen.series_data(rng, D, P, shape, 'R', 'random', False, 1.0)
+        with np.errstate(all='ignore'):
+            _t(ctx, lambda: algopy.special.botched_clip(0.5, -0.5, UTPM(a.copy())))
+            _t(ctx, lambda: UTPM.botched_clip(np.full(shape, 0.25), np.linspace(-1.0, 1.0, int(np.prod(shape))).reshape(shape), UTPM(a.copy())))
     # selections between polynomials of which one has infinite base values (an open bound): NumPy returns the finite operand
     for shape in [(3,), (2, 2)]:
         a = gen.series_data(rng, D, P, shape, 'R', 'random', False, 1.0); b = gen.series_data(rng, D, P, shape, 'R', 'random', False, 1.0)
         a[0].reshape(P, -1)[:, 0] = np.inf; b[0].reshape(P, -1)[:, -1] = -np.inf
+        a[0].reshape(P, -1)[:, 1] = np.nan           # NumPy's minimum / maximum propagate a nan of either operand
+        if shape == (2, 2):
+            a = a.astype(np.float32)                 # operands of different precision: the result has the wider one, in either order
         with np.errstate(all='ignore'):
             _t(ctx, lambda: algopy.minimum(UTPM(a.copy()), UTPM(b.copy()))); _t(ctx, lambda: algopy.maximum(UTPM(a.copy()), UTPM(b.copy())))
             _t(ctx, lambda: algopy.minimum(UTPM(b.copy()), UTPM(a.copy()))); _t(ctx, lambda: algopy.maximum(UTPM(b.copy()), UTPM(a.copy())))
@@ -305,7 +314,7 @@ def _compare(ctx, p, rng):
         cg = CGraph()
         FA, FB = Function(UTPM(a.copy())), Function(UTPM(b.copy()))
         cg.trace_off()
-        for op in (operator.lt, operator.le, operator.gt, operator.ge):
+        for op in (operator.lt, operator.le, operator.gt, operator.ge, operator.eq):
             want = bool(np.all(op(a[0], b[0])))
             for lhs, rhs, tag in ((FA, FB, 'FF'), (FA, UTPM(b.copy()), 'FU'), (FA, b[0, 0] if P == 1 else None, 'Fa')):
                 if rhs is None:
@@ -318,6 +327,15 @@ def _compare(ctx, p, rng):
                 if got != w:
                     ctx.violation('compare:Function:%s' % op.__name__, {'op': op.__name__, 'operands': tag, 'got': got, 'want': w}); return
                 ctx.ok('compare:Function', ('cmpF', op.__name__, tag, w, shape))
+        # equality of a traced value with an equal value (a traced `if x == c:` takes the branch NumPy takes)
+        try:
+            got = bool(FA == UTPM(a.copy())) and bool(FA == Function(UTPM(a.copy()))) and (P > 1 or shape != () or bool(FA == a[0, 0]))
+        except Exception as e:
+            ctx.violation('compare:Function:raises', {'op': 'eq', 'error': repr(e)[:160]}); return
+        if not got:
+            ctx.violation('compare:Function:eq', {'op': 'eq', 'operands': 'a traced value and an equal value', 'got': False, 'want': True})
+        else:
+            ctx.ok('compare:Function', ('cmpF', 'eq-equal', shape))
     # data-dependent branches take the same path with and without derivative propagation
     for _ in range(6):
         x0 = rng.normal(size=3)
@@ -507,11 +525,14 @@ def _plain(ctx, p, rng):
         ('ones:dtype-str', lambda: algopy.ones(3, dtype='complex64'), lambda: np.ones(3, dtype='complex64')),
         ('zeros:dtype-object', lambda: algopy.zeros(2, dtype=np.dtype('int16')), lambda: np.zeros(2, dtype=np.dtype('int16'))),
         ('ones:dtype-object', lambda: algopy.ones((1, 2), dtype=np.dtype('float64')), lambda: np.ones((1, 2), dtype=np.dtype('float64'))),
+        ('zeros:dtype-None', lambda: algopy.zeros(3, dtype=None), lambda: np.zeros(3, dtype=None)), ('ones:dtype-None', lambda: algopy.ones((2, 1), dtype=None), lambda: np.ones((2, 1), dtype=None)),
+        ('zeros:shape-list', lambda: algopy.zeros([2, 3]), lambda: np.zeros([2, 3])), ('ones:shape-array', lambda: algopy.ones(np.array([2, 1])), lambda: np.ones(np.array([2, 1]))),
         ('zeros:dtype-numpy-type', lambda: algopy.zeros(2, dtype=np.float32), lambda: np.zeros(2, dtype=np.float32)),
         # selections with infinite operands (an "unbounded" bound): the finite operand comes back
         ('minimum:inf', lambda: algopy.minimum(np.where(x > 0.5, np.inf, x), y), lambda: np.minimum(np.where(x > 0.5, np.inf, x), y)),
         ('maximum:-inf', lambda: algopy.maximum(np.where(x > 0.5, -np.inf, x), y), lambda: np.maximum(np.where(x > 0.5, -np.inf, x), y)),
         ('clip', lambda: algopy.special.botched_clip(0.3, 0.6, x), lambda: np.clip(x, 0.3, 0.6)),
+        ('clip:lower-bound-above-upper', lambda: algopy.special.botched_clip(0.6, 0.3, x), lambda: np.clip(x, 0.6, 0.3)),          # NumPy documents a_max for a_min > a_max
     ]
     for nm, fa, fn in tests:
         try:
